@@ -660,6 +660,9 @@ class RequestHandler(BaseProtocol, Generic[_Request]):
                     "Response is sent already, cannot send another response "
                     "with the error message"
                 )
+            # A response that failed to start may have left its framing
+            # (chunking, compression, length) on the writer.
+            request._payload_writer = StreamWriter(self, self._loop)
             resp = Response(
                 status=exc.status, reason=exc.reason, text=exc.text, headers=exc.headers
             )
@@ -952,6 +955,9 @@ class RequestHandler(BaseProtocol, Generic[_Request]):
                 "Response is sent already, cannot send another response "
                 "with the error message"
             )
+        # A response that failed to start may have left its framing
+        # (chunking, compression, length) on the writer.
+        request._payload_writer = StreamWriter(self, self._loop)
 
         ct = "text/plain"
         if status == HTTPStatus.INTERNAL_SERVER_ERROR:
